@@ -219,11 +219,26 @@ class SimpleHeatPumpCycle:
         *,
         phase: str = 1.0,
     ) -> CoolProp.AbstractState:
+        if self._on_saturation_line(p, T, phase):
+            return self._state
         try:
             self._state.update(CoolProp.PT_INPUTS, p, T)          
         except:
             self._state.update(CoolProp.PQ_INPUTS, p, phase) # Close to saturated liquid/vapour  
         return self._state
+
+
+    def _on_saturation_line(
+        self,
+        p: float,
+        T: float,
+        Q: float,
+    ) -> bool:
+        """Leave the state at quality Q if (p, T) lies on the saturation line, where a PT flash may land on either side."""
+        if p >= self._p_crit:
+            return False
+        self._state.update(CoolProp.PQ_INPUTS, p, Q)
+        return abs(self._state.T() - T) < 1e-6
     
 
     def _compute_evaporator_outlet_state(
@@ -253,10 +268,11 @@ class SimpleHeatPumpCycle:
         T: float, 
         dT_sc: float,
     ) -> CoolProp.AbstractState:
-        try:
-            self._state.update(CoolProp.PT_INPUTS, p, T)
-        except:
-            self._state.update(CoolProp.PQ_INPUTS, p, 0.0) # Close to saturated liquid
+        if not self._on_saturation_line(p, T, 0.0):
+            try:
+                self._state.update(CoolProp.PT_INPUTS, p, T)
+            except:
+                self._state.update(CoolProp.PQ_INPUTS, p, 0.0) # Close to saturated liquid
         
         if self._state.hmass() > self._cycle_states[0, 'H']:
             self._state.update(CoolProp.HmassP_INPUTS, self._cycle_states[0, 'H'], p)
